@@ -444,6 +444,20 @@ def rule_pub_fields(text, dropped):
     return new
 
 
+def rule_range_map_collect(text, dropped):
+    """`let X = (0..N).map(|i| EXPR).collect_vec();`  =>  an explicit counting loop pushing EXPR (closure body verbatim).
+    Soft rule: when the statement has another shape the text is left alone and Verus gets to see it as it is."""
+    rx = re.compile(r'let (\w+) = \(0\.\.(\w+)\)\s*\.map\(\|(\w+)\| ([^;]*?)\)\s*\.collect_vec\(\);', re.S)
+    def rep(m):
+        x, n, i, expr = m.group(1), m.group(2), m.group(3), m.group(4)
+        new = (f'let mut {x} = Vec::new(); let mut verif_i: usize = 0; while verif_i < {n} {{ let {i} = verif_i; '
+               f'{x}.push({expr.strip()}); verif_i += 1; }}')
+        pad = m.group(0).count('\n') - new.count('\n')
+        dropped.append(('range-map-collect', re.sub(r'\s+', ' ', m.group(0)) + '  =>  explicit loop'))
+        return new + '\n' * max(pad, 0)
+    return rx.sub(rep, text)
+
+
 RULES = {
     'drop-tracing': rule_drop_tracing,
     'assert-eq': rule_assert_eq,
@@ -458,6 +472,7 @@ RULES = {
     'anon-lifetime': rule_anon_lifetime,
     'drop-metrics': rule_drop_metrics,
     'for-tuple-pattern': rule_for_tuple_pattern,
+    'range-map-collect': rule_range_map_collect,
     'pub-fields': rule_pub_fields,
     'chunks-enumerate': rule_chunks_enumerate,
 }
